@@ -103,7 +103,7 @@ var checks = []Check{
 			Harness{Fn: "ZZC13Math", Expect: []string{"math-min", "math-atan2", "math-round", "witness:end"}, Cross: true},
 			Harness{Fn: "ZZC13Rand", Expect: []string{"rand-ok", "rand-err", "stub:rand.Int31n", "witness:end"}},
 			Harness{Fn: "ZZC13Conv", Quick: p("H", 2), Thorough: p("H", 3), Expect: []string{"conv-ok", "witness:end"}},
-			Harness{Fn: "ZZC13Outcome", Expect: []string{"exit", "panic", "test1", "test2", "test3", "testbad", "witness:end"}},
+			Harness{Fn: "ZZC13Outcome", Expect: []string{"exit", "panic", "test1", "test2", "test3", "testbad", "test-msg", "witness:end"}},
 			Harness{Fn: "ZZC13Hsl", Expect: []string{"hsl-ok", "hsl-err", "witness:end"}},
 			Harness{Fn: "ZZC13Len", Quick: p("N", 3), Thorough: p("N", 6), Expect: []string{"witness:end"}},
 		), func() Unit {
